@@ -359,6 +359,17 @@ def run(prog, R):
                 consts = [r for r in rs if r[0] == 'const']
                 # a flag that is computed (`is_new = is_new && have == 0`) instead of being set from literals: another formulation, not judged
                 computed_flag = any(r[0] in ('bin', 'un', 'call') for r in rs)
+                # ... unless it is computed from the *physical* offsets vector of a set that keeps a separate record count (seed
+                # C18-r6a: `rset.positions.is_empty()` for the FASTA set): that vector keeps the entries of earlier batches
+                adt_ = prog.adts.get('%s::RecordSet' % fmt)
+                counted_ = bool(adt_) and any(fd['ty'].strip() == 'usize' for fd in adt_['variants'][0]['fields'])
+                if counted_:
+                    for r in data_deps(b, a, du):
+                        if r[0] == 'call' and r[1].callee and r[1].callee.name in ('is_empty', 'len') and r[1].args and 'BufferPosition' in (r[1].callee.resolved or '') + ' '.join(r[1].callee.targs):
+                            rv_ = roots_of(b, r[1].args[0], du, through_calls=lambda c_: 0 if c_ and c_.path in ('std::ops::Deref::deref',) else None)
+                            if rv_ and all(q[0] == 'arg' and q[-1] for q in rv_):
+                                R.add('GROW-5', b, 'flag-from-logical-count', False, site(b, r[1].line),
+                                      'the "may the buffer be moved" flag is computed from %s() of the offsets vector of a record set that has a separate record count: the vector keeps the entries of earlier batches, so a reused set never looks empty and the reader grows its buffer instead of moving the record' % r[1].callee.name)
                 R.add('GROW-5', b, 'flag-roots-are-constants', len(consts) == len(rs) and any(r[1].const_int() == 1 for r in consts),
                       site(b, t.line), 'flag <- %s' % [r[1].pretty() if r[0] == 'const' else r[0] for r in rs], undecided=computed_flag)
                 # stores of false into the flag local(s)
